@@ -19,6 +19,8 @@ type GraphCase struct {
 	FileDep []int    `json:"file_dep,omitempty"` // tasks with a file dependency (skipped on the second run)
 	Fail    []int    `json:"fail,omitempty"`     // tasks whose (first) command fails
 	TwoCmds []int    `json:"two_cmds,omitempty"` // tasks with two commands
+	Empty   []int    `json:"empty,omitempty"`    // tasks whose (first) definition has an empty body
+	VarLike []int    `json:"var_like,omitempty"` // tasks for which a global variable of the same name exists (value: an existing file)
 	Request []string `json:"request"`
 	Reps    int      `json:"reps"`
 }
@@ -49,7 +51,10 @@ func (c GraphCase) deps(i int) []int {
 // Source renders the spokfile.
 func (c GraphCase) Source() string {
 	var b strings.Builder
-	def := func(i int) {
+	for _, i := range c.VarLike {
+		fmt.Fprintf(&b, "%s := \"in.txt\"\n", graphNames[i])
+	}
+	def := func(i int, second bool) {
 		var args []string
 		if has(c.FileDep, i) {
 			args = append(args, `"in.txt"`)
@@ -60,17 +65,20 @@ func (c GraphCase) Source() string {
 		if has(c.Undef, i) {
 			args = append(args, undefinedName)
 		}
-		fmt.Fprintf(&b, "task %s(%s) {\n    run %s 0\n", graphNames[i], strings.Join(args, ", "), graphNames[i])
-		if has(c.TwoCmds, i) {
-			fmt.Fprintf(&b, "    run %s 1\n", graphNames[i])
+		fmt.Fprintf(&b, "task %s(%s) {\n", graphNames[i], strings.Join(args, ", "))
+		if second || !has(c.Empty, i) {
+			fmt.Fprintf(&b, "    run %s 0\n", graphNames[i])
+			if has(c.TwoCmds, i) {
+				fmt.Fprintf(&b, "    run %s 1\n", graphNames[i])
+			}
 		}
 		b.WriteString("}\n\n")
 	}
 	for i := 0; i < c.N; i++ {
-		def(i)
+		def(i, false)
 	}
 	for _, i := range c.Dup {
-		def(i)
+		def(i, true)
 	}
 	return b.String()
 }
@@ -149,7 +157,7 @@ func execGraph(s *ev.Shard, root string, c GraphCase) *rp.Fail {
 	}
 	src := c.Source()
 	ref := c.reference()
-	size := c.N*10 + len(c.Edges) + len(c.Request) + len(c.Dup) + len(c.Undef) + len(c.Fail) + len(c.FileDep)
+	size := c.N*10 + len(c.Edges) + len(c.Request) + len(c.Dup) + len(c.Undef) + len(c.Fail) + len(c.FileDep) + len(c.Empty) + len(c.VarLike)
 	index := map[string]int{}
 	for i := 0; i < c.N; i++ {
 		index[graphNames[i]] = i
@@ -248,6 +256,9 @@ func execGraph(s *ev.Shard, root string, c GraphCase) *rp.Fail {
 				wantCmds := 1
 				if has(c.TwoCmds, i) {
 					wantCmds = 2
+				}
+				if has(c.Empty, i) {
+					wantCmds = 0
 				}
 				switch {
 				case r.Skipped && rr.rec.count[r.Task] != 0:
